@@ -614,7 +614,7 @@ stream_harness!(c01_parse_stream_5, 5, false);
 // @bound empty carry-over buffer, record data of exactly 7 symbolic bytes (<= 3 pairs), rec_end symbolic; make_cgivar = E4 model; map insertion = no-op (E4c); E8
 // @functions ParamsStateInner::parse_stream, NVIter<&mut [u8]>::next
 stream_harness!(c01_parse_stream_7, 7, false);
-// @harness name=c01_parse_stream_real_3 props=C01 tier=thorough timeout=7000 rmbody=ioerr mem=24
+// @harness name=c01_parse_stream_real_3 props=C01 tier=manual timeout=7000 rmbody=ioerr mem=24
 // @bound as c01_parse_stream_3 but with the REAL HashMap (values read back from the environment)
 // @functions ParamsStateInner::parse_stream, NVIter<&mut [u8]>::next, HashMap::extend
 stream_harness!(c01_parse_stream_real_3, 3, true);
@@ -856,4 +856,25 @@ pub(crate) fn rparse_contract<'p, 'a>(p: &'p mut Parser<'a>, new_input: usize) -
         done = true;
     }
     Yield { done, output: &p.output }
+}
+
+// ------------------------------------------------------------------------------------------------ make_cgivar (real), concrete spot checks
+
+// @harness name=c01_make_cgivar_concrete props=C01,C19 tier=quick timeout=900
+// @bound concrete names (lossy UTF-8 + phf interning on symbolic bytes runs out of memory, see c19_constructors): lower-case custom name, lower-case interned name, invalid UTF-8, empty name
+// @functions ParamsStateInner::make_cgivar, CompactString::from_utf8_lossy, OwnedVarName::from_compact
+#[kani::proof]
+#[kani::unwind(20)]
+#[kani::stub(compact_str::repr::ensure_read, ensure_read_id)]
+fn c01_make_cgivar_concrete() {
+    let v = ParamsStateInner::make_cgivar(b"x_custom");
+    assert!(v.as_ref() == "X_CUSTOM", "names must be ASCII-uppercased");
+    let v = ParamsStateInner::make_cgivar(b"Request_Method");
+    assert!(v.as_ref() == "REQUEST_METHOD" && v == cgi::OwnedVarName::from(cgi::REQUEST_METHOD), "known names must be matched case-insensitively");
+    let v = ParamsStateInner::make_cgivar(b"a\xffb");
+    assert!(v.as_ref() == "A\u{fffd}B", "invalid UTF-8 must be replaced lossily, the rest kept");
+    let v = ParamsStateInner::make_cgivar(b"");
+    assert!(v.as_ref().is_empty(), "empty name");
+    kani::cover!(true, "reached");
+    std::mem::forget(v);
 }
